@@ -163,6 +163,15 @@ _UP = {
     "C07": _POT + _LJ + _SAME, "C08": _POT + _LJ + _SAME, "C09": _POT + _LJ, "C10": _POT + _LJ, "C12": _SAME,
     "C13": _SAME + _f(KTN, K, "read_network"), "C14": _SAME + _LJ, "C15": _POT, "C18": _SAME,
 }
+_STORE = _f(KTN, K, "add_minimum", "add_ts", "remove_minimum", "remove_minima", "remove_ts", "remove_tss", "reset_network",
+            "get_minimum_coords", "get_minimum_energy", "get_ts_coords", "get_ts_energy")
+for _p in ("C01", "C03", "C05", "C06", "C08", "C12", "C13", "C14", "C17", "C18"):
+    _UP[_p] = _UP.get(_p, []) + _STORE
+_MOL = _f(COORD, "MolecularCoordinates", "__init__", "get_rotatable_dihedrals", "get_repeat_dihedrals", "get_planar_rings",
+          "get_bond_angle_info", "remove_repeat_angles", "get_specific_bond_angle_info", "get_connected_atoms", "get_bonds") + \
+    _f(COORD, "AtomicCoordinates", "__init__", "get_atom") + _f(COORD, "StandardCoordinates", "__init__")
+for _p in ("C07", "C08", "C11", "C14", "C20"):
+    _UP[_p] = _UP.get(_p, []) + _MOL
 for _p, _fs in _UP.items():
     _DEPENDS.setdefault(_p, [])
     _DEPENDS[_p] = list(_DEPENDS[_p]) + _fs
